@@ -63,6 +63,62 @@ def base_instances(rng, per_gate=2):
     return out
 
 
+def template_instances(rng):
+    """Templates / arithmetic subroutines without a reference-table entry (register shapes, partial work-wire sets, nested
+    controls with zero control values).  Used by C11 (resources need no semantics) and, where the operator has a matrix,
+    by C10 with the operator's own matrix as a (weaker) oracle."""
+    import numpy as _np
+    mk = [
+        lambda: qp.SemiAdder([0, 1, 2], [10, 11, 12, 13], work_wires=[20]),
+        lambda: qp.SemiAdder([0, 1, 2], [10, 11], work_wires=[20]),
+        lambda: qp.SemiAdder([0, 1], [10, 11, 12], work_wires=[20, 21]),
+        lambda: qp.SemiAdder([0, 1, 2], [10, 11, 12], work_wires=None),
+        lambda: qp.SemiAdder([0], [10, 11, 12, 13], work_wires=[20, 21]),
+        lambda: qp.SemiAdder([0, 1, 2, 3], [10, 11, 12], work_wires=[20, 21]),
+        lambda: qp.Adder(3, [0, 1, 2], mod=8),
+        lambda: qp.Adder(3, [0, 1, 2], mod=7, work_wires=[5, 6]),
+        lambda: qp.PhaseAdder(3, [0, 1, 2], mod=8),
+        lambda: qp.PhaseAdder(2, [0, 1, 2], mod=5, work_wire=[4]),
+        lambda: qp.Multiplier(3, [0, 1, 2], mod=8, work_wires=[5, 6, 7]),
+        lambda: qp.OutAdder([0, 1], [2, 3], [4, 5, 6]),
+        lambda: qp.OutMultiplier([0, 1], [2, 3], [4, 5, 6, 7]),
+        lambda: qp.ControlledSequence(qp.ctrl(qp.Adder(3, [0, 1, 2]), control=[10], control_values=[0]), control=[20, 21]),
+        lambda: qp.ControlledSequence(qp.ctrl(qp.PhaseAdder(1, [0, 1, 2]), control=[10, 11], control_values=[1, 0]), control=[20]),
+        lambda: qp.ControlledSequence(qp.RX(0.5, 0), control=[1, 2, 3]),
+        lambda: qp.QROM(["01", "11", "10", "00"], control_wires=[0, 1], target_wires=[2, 3], work_wires=[4, 5]),
+        lambda: qp.QROM(["1", "0", "0", "1"], control_wires=[0, 1], target_wires=[2], work_wires=None),
+        lambda: qp.Select([qp.X(2), qp.Y(2), qp.Z(3), qp.H(2)], control=[0, 1]),
+        lambda: qp.Select([qp.X(2), qp.Y(2), qp.Z(3)], control=[0, 1]),
+        lambda: qp.QuantumPhaseEstimation(qp.RX(0.5, 0), estimation_wires=[1, 2]),
+        lambda: qp.QuantumPhaseEstimation(qp.PhaseShift(0.5, 0), estimation_wires=[1, 2, 3]),
+        lambda: qp.AQFT(order=1, wires=[0, 1, 2]),
+        lambda: qp.BasisState(_np.array([1, 0, 1]), wires=[0, 1, 2]),
+        lambda: qp.Reflection(qp.H(0), 0.5),
+        lambda: qp.GroverOperator(wires=[0, 1, 2]),
+        lambda: qp.TemporaryAND([0, 1, 2]),
+        lambda: qp.TemporaryAND([0, 1, 2], control_values=(0, 1)),
+        lambda: qp.IntegerComparator(2, geq=True, wires=[0, 1, 2]),
+        lambda: qp.IntegerComparator(1, geq=False, wires=[0, 1, 2]),
+        lambda: qp.PCPhase(0.5, dim=2, wires=[0, 1]),
+        lambda: qp.PCPhase(0.5, dim=3, wires=[0, 1]),
+        lambda: qp.OrbitalRotation(0.5, wires=[0, 1, 2, 3]),
+        lambda: qp.TrotterProduct(qp.X(0) + qp.Z(0), 0.5, n=2, order=2),
+        lambda: qp.Permute([2, 0, 1], wires=[0, 1, 2]),
+        lambda: qp.FlipSign([1, 0], wires=[0, 1]),
+        lambda: qp.MottonenStatePreparation(_np.array([0.5, 0.5, 0.5, 0.5]), wires=[0, 1]),
+        lambda: qp.Incrementer(wires=[0, 1, 2]),
+        lambda: qp.ctrl(qp.Incrementer(wires=[0, 1, 2]), control=[5], control_values=[0]),
+        lambda: qp.ctrl(qp.SemiAdder([0, 1], [10, 11, 12], work_wires=[20, 21]), control=[30]),
+    ]
+    out = []
+    for f in mk:
+        try:
+            out.append(f())
+        except Exception:      # a constructor that does not exist / changed signature in this tree: not our concern here
+            pass
+    return out
+
+
 def symbolic_instances(rng, bases, tier):
     out = []
     small = [b for b in bases if len(b.wires) <= 2 and b.name not in ("GlobalPhase",)]
